@@ -103,6 +103,45 @@ type runner struct {
 	rsrv  *readServer
 	wsrv  *writeServer
 	paths map[string]int
+	// watchdog: every path works on in-memory pipes that have been filled and closed beforehand, so a path that
+	// makes no progress for a minute is blocked for good (e.g. a reader waiting for octets that cannot come)
+	wmu    sync.Mutex
+	cur    *svec
+	curP   string
+	serial int
+}
+
+func (r *runner) enter(v *svec, path string) {
+	r.wmu.Lock()
+	r.cur, r.curP = v, path
+	r.serial++
+	r.wmu.Unlock()
+}
+
+func (r *runner) watchdog() {
+	last, since := -1, time.Now()
+	for {
+		time.Sleep(2 * time.Second)
+		r.wmu.Lock()
+		s, v, p := r.serial, r.cur, r.curP
+		r.wmu.Unlock()
+		if s != last {
+			last, since = s, time.Now()
+			continue
+		}
+		if v != nil && time.Since(since) > 60*time.Second {
+			if v.Kind == "stream" {
+				r.mis(v, p, "blocked", "no progress for 60 s on a stream that was written and closed beforehand")
+			} else {
+				c := *v
+				c.Path = p
+				r.sum.Mis("idmatch/"+v.Transport+"/blocked", "Exchange did not return within 60 s", &c)
+			}
+			r.sum.Note("exchange_replay_paths", r.paths)
+			r.sum.Print()
+			os.Exit(0)
+		}
+	}
 }
 
 func (r *runner) mis(v *svec, path, clause, what string) {
@@ -215,7 +254,10 @@ type logReader struct {
 func (l logReader) ReadTCP(conn net.Conn, timeout time.Duration) ([]byte, error) {
 	m, err := l.Reader.ReadTCP(conn, timeout)
 	if ch, ok := l.logs.Load(conn); ok {
-		ch.(chan readLog) <- readLog{append([]byte(nil), m...), err}
+		select {
+		case ch.(chan readLog) <- readLog{append([]byte(nil), m...), err}:
+		default: // nobody listens any more (the scenario was already judged)
+		}
 	}
 	return m, err
 }
@@ -492,6 +534,7 @@ func (r *runner) stream(v *svec) {
 		}
 		r.paths[p]++
 		r.sum.Evaluations++
+		r.enter(v, p)
 		return true
 	}
 	refusal := false
@@ -726,6 +769,7 @@ func (r *runner) idReal(v *svec, i int) {
 }
 
 func (r *runner) id(v *svec, i int) {
+	r.enter(v, "ExchangeWithConn")
 	if v.Path == "" || v.Path == "ExchangeWithConn" {
 		r.sum.Evaluations++
 		r.paths["id-fake"]++
@@ -747,6 +791,7 @@ func replay(path string) {
 	var sum hx.Summary
 	r := &runner{sum: &sum, rsrv: newReadServer(), wsrv: newWriteServer(), paths: map[string]int{}}
 	seen := map[string]bool{}
+	go r.watchdog()
 	hx.ReadNDJSON(path, func(i int, v *svec) {
 		switch v.Kind {
 		case "stream":
@@ -766,8 +811,11 @@ func replay(path string) {
 			sum.Sample(c)
 		}
 	})
-	r.rsrv.srv.Shutdown()
-	r.wsrv.srv.Shutdown()
+	r.enter(nil, "")
+	ctx, cancel := context.WithTimeout(context.Background(), 5*time.Second)
+	r.rsrv.srv.ShutdownContext(ctx) // a connection goroutine left behind by a judged scenario must not keep us
+	r.wsrv.srv.ShutdownContext(ctx)
+	cancel()
 	sum.Nontrivial = len(seen)
 	sum.Note("exchange_replay_paths", r.paths)
 	sum.Print()
@@ -827,13 +875,47 @@ func replyTok(t []byte) []byte {
 	return r
 }
 
+// The request carries its token in a private-use RR (RFC 6895; dns.PrivateHandle).  Its Unpack method is the one
+// place where user code runs in the middle of decoding: it waits until later packets have been received, so the rest
+// of the message (the address record behind it) is decoded from a receive buffer that has had every chance of being
+// recycled if the server let go of it too early.
+const typeTok = 0xFF42
+
+type tokRdata struct{ tok []byte }
+
+var decodeBarrier func()
+
+func (t *tokRdata) String() string       { return hex.EncodeToString(t.tok) }
+func (t *tokRdata) Parse([]string) error { return nil }
+func (t *tokRdata) Pack(b []byte) (int, error) {
+	if len(b) < len(t.tok) {
+		return 0, errors.New("tok: short buffer")
+	}
+	return copy(b, t.tok), nil
+}
+func (t *tokRdata) Unpack(b []byte) (int, error) {
+	if f := decodeBarrier; f != nil {
+		f()
+	}
+	t.tok = append([]byte(nil), b...)
+	return len(b), nil
+}
+func (t *tokRdata) Copy(d dns.PrivateRdata) error {
+	d.(*tokRdata).tok = append([]byte(nil), t.tok...)
+	return nil
+}
+func (t *tokRdata) Len() int { return len(t.tok) }
+
 func mkRequest(c, round int) *dns.Msg {
 	m := new(dns.Msg)
 	m.SetQuestion(instName(c, round), dns.TypeA)
 	m.Id = instID(c, round)
+	p := dns.TypeToRR[typeTok]().(*dns.PrivateRR)
+	p.Hdr = dns.RR_Header{Name: "tok.", Rrtype: typeTok, Class: dns.ClassINET, Ttl: 1}
+	p.Data = &tokRdata{instTok(c, round)}
 	m.Extra = []dns.RR{
+		p,
 		&dns.A{Hdr: dns.RR_Header{Name: instName(c, round), Rrtype: dns.TypeA, Class: dns.ClassINET, Ttl: 1}, A: instIP(c, round)},
-		&dns.TXT{Hdr: dns.RR_Header{Name: "tok.", Rrtype: dns.TypeTXT, Class: dns.ClassINET, Ttl: 1}, Txt: []string{hex.EncodeToString(instTok(c, round))}},
 	}
 	return m
 }
@@ -848,6 +930,10 @@ func fieldsOf(m *dns.Msg) *reqFields {
 		switch x := rr.(type) {
 		case *dns.A:
 			f.IP = hx.FromBytes(x.A.To4())
+		case *dns.PrivateRR:
+			if d, ok := x.Data.(*tokRdata); ok {
+				f.Tok = hx.FromBytes(d.tok)
+			}
 		case *dns.TXT:
 			if len(x.Txt) == 1 {
 				if b, err := hex.DecodeString(x.Txt[0]); err == nil {
@@ -1002,6 +1088,8 @@ func record(tr, out string, N, R int) {
 		h.k = 8
 	}
 	h.cond = sync.NewCond(&h.mu)
+	dns.PrivateHandle("VERIFTOK", typeTok, func() dns.PrivateRdata { return new(tokRdata) })
+	decodeBarrier = func() { h.barrier() }
 	// the repo's verification hooks (build tag verif) report every pool Get / Put with the buffer's identity
 	dns.VerifHook = func(ev string, _ *dns.Server, a, b uintptr) {
 		switch ev {
